@@ -39,6 +39,9 @@ THEOREMS = {
         "Shroud.Decl.roundtrip_partial",
         "Shroud.Decl.roundtrip_prefix_partial",
         "Shroud.Decl.defaultEnv_void",
+        "Shroud.Decl.denote_toks",
+        "Shroud.Decl.denote_toks_param",
+        "Shroud.Decl.parse_agrees_with_cxx_partial",
     ]
 }
 
@@ -238,7 +241,83 @@ CXX_HEAD = """#include <string>
 #include <type_traits>
 using namespace std;
 typedef int MPI_Comm;
+template<class T> using P = T*;
+template<class T> using R = T&;
+template<class T, int N> using A = T[N];
+template<class Ret, class... Args> using F = Ret(Args...);
+template<class Ret, class... Args> using FC = Ret(Args...) const;
+template<class T> using C = const T;
+template<class T> using V = volatile T;
 """
+
+
+def reference_meaning(cases):
+    """driver op `meaning` on the source text of each case -> list of (name, valid, type text) or None"""
+    drv = common.Driver("drv_decl")
+    out = drv.run(["meaning " + dc.enc_tokens(dc.raw_tokens(t)) for t, _ in cases])
+    res = []
+    for o in out:
+        m = o.split(" | ")[0]
+        if m == "M none":
+            res.append(None)
+        else:
+            _, nm, valid, txt = m.split(" ")
+            res.append((None if nm == "~" else common.dec(nm), valid == "1", common.dec(txt)))
+    return res
+
+
+def check_base_agrees(ctx, maxlen):
+    """BaseAgrees (hypothesis of the meaning theorems) for the extracted environment, exhaustively over all
+    specifier lists up to maxlen: model `fundName` == cxx_type of the typemap get_canonical_typemap selects;
+    and, on the implementation only, g++ agrees that the specifier list and that cxx_type are the same type."""
+    import itertools
+    declast, _ = dc.mods()
+    from shroud import typemap
+    specs = sorted(declast.type_specifier)
+    lists = [t for n in range(1, maxlen + 1) for t in itertools.product(specs, repeat=n)]
+    drv = common.Driver("drv_decl")
+    out = drv.run(["fund " + " ".join(common.enc(x) for x in t) for t in lists])
+    bad, accepted = [], []
+    for t, o in zip(lists, out):
+        f, c = o.split(" | ")
+        if c != "reject":
+            accepted.append(t)
+            if f != c:
+                bad.append({"specifiers": " ".join(t), "fundName": f if f == "none" else common.dec(f),
+                            "typemap_cxx_type": c if c == "none" else common.dec(c)})
+    ctx.count(len(lists))
+    ctx.note("base_agrees", {"specifier_lists": len(lists), "accepted": len(accepted), "disagreements": len(bad)})
+    if bad:
+        ctx.tie_broken("BaseAgrees", bad[:5])
+    # implementation-only: g++ on the real canonical_typemap / typemap table
+    tmp = common.scratch()
+    try:
+        lines = [CXX_HEAD, "#include <complex>"]
+        where = {}
+        for t in accepted:
+            if "complex" in t:
+                continue
+            name = "_".join(t)
+            name = declast.canonical_typemap.get(name, name)
+            tm = typemap.lookup_type(name)
+            if tm is None or tm.cxx_type is None:
+                continue
+            where[len("\n".join(lines).split("\n")) + 1] = t
+            lines.append("static_assert(std::is_same<%s, %s>::value, \"differ\");" % (" ".join(t), tm.cxx_type))
+        src = os.path.join(tmp, "b.cpp")
+        with open(src, "w") as f:
+            f.write("\n".join(lines) + "\n")
+        p = subprocess.run(["g++", "-std=c++11", "-fsyntax-only", "-fmax-errors=0", "-w", src],
+                           stdout=subprocess.PIPE, stderr=subprocess.STDOUT, text=True, timeout=300)
+        for m in re.finditer(r"b\.cpp:(\d+):\d+: error: (.*)", p.stdout):
+            t = where.get(int(m.group(1)))
+            if t:
+                ctx.fail("typemap-cxx-type:" + "_".join(t), "g++: specifiers %r are not the type %r that get_canonical_typemap "
+                         "selects (%s)" % (" ".join(t), "_".join(t), m.group(2)), {"kind": "spec", "decl": " ".join(t) + " x"})
+        ctx.count(len(where))
+    finally:
+        common.rmtree(tmp)
+
 
 
 def cxx_candidates(r, n, maxdepth):
@@ -270,6 +349,12 @@ def gxx_check(ctx, cases, tag):
     try:
         lines = CXX_HEAD.split("\n")
         where = {}
+        try:
+            ref = reference_meaning(cases)
+        except Exception:  # noqa
+            ref = [None] * len(cases)
+        refstat = {"defined": 0, "valid": 0, "agree_gxx": 0, "gxx_rejects_original": 0, "differ": []}
+
         def tparam(d, top=True):
             if not top and d.template_arguments:
                 return True
@@ -290,6 +375,9 @@ def gxx_check(ctx, cases, tag):
             lines.append("namespace r%d { extern %s; }" % (i, rendered))
             where[len(lines) + 1] = ("same", i)
             lines.append("static_assert(std::is_same<decltype(o%d::%s), decltype(r%d::%s)>::value, \"differ\");" % (i, name, i, name))
+            if ref[i] is not None and ref[i][1] and ref[i][0] == name:
+                where[len(lines) + 1] = ("ref", i)
+                lines.append("static_assert(std::is_same<decltype(o%d::%s), %s>::value, \"refdiffer\");" % (i, name, ref[i][2]))
         src = os.path.join(tmp, "t.cpp")
         with open(src, "w") as f:
             f.write("\n".join(lines) + "\n")
@@ -303,6 +391,16 @@ def gxx_check(ctx, cases, tag):
                 bad.setdefault(i, {}).setdefault(kind, m.group(2))
         for i, (text, a) in enumerate(cases):
             b = bad.get(i, {})
+            if ref[i] is not None:
+                refstat["defined"] += 1
+                if ref[i][1]:
+                    refstat["valid"] += 1
+                    if "orig" in b:
+                        refstat["gxx_rejects_original"] += 1
+                    elif "ref" in b:
+                        refstat["differ"].append({"decl": text, "cxxMeaning": ref[i][2], "gxx": b["ref"]})
+                    elif ref[i][0] == a.name:
+                        refstat["agree_gxx"] += 1
             if "orig" in b:
                 continue           # not C++: nothing to compare with
             compared += 1
@@ -311,6 +409,9 @@ def gxx_check(ctx, cases, tag):
                 why = b.get("rend", b.get("same"))
                 ctx.fail("gxx:" + rt_class(a, text), "g++: %r is rendered by gen_arg_as_cxx as %r, not the same type (%s)" % (
                     text, a.gen_arg_as_cxx(with_template_args=True), why), {"kind": "gxx", "decl": text})
+        ctx.note("cxxMeaning_vs_gxx", dict(refstat, differ=len(refstat["differ"])))
+        if refstat["differ"]:
+            ctx.tie_broken("cxxMeaning-vs-gxx", refstat["differ"][:5])
     finally:
         common.rmtree(tmp)
     return compared
@@ -505,6 +606,38 @@ def run(ctx):
             classes[cls] = classes.get(cls, 0) + 1
             ctx.fail("roundtrip:" + cls, why, {"kind": "roundtrip", "decl": s})
     ctx.note("roundtrip_failure_classes", classes)
+
+    # ---- reference semantics: cxxMeaning(ts) vs denote(parse ts) on every accepted input (model level), and
+    #      the BaseAgrees hypothesis of the meaning theorems
+    drv = common.Driver("drv_decl")
+    if drv.available() and ok:
+        acc = [(s, a) for s, a, line in zip(cases, asts, impl) if a is not None and line.startswith("ok ")]
+        out = drv.run(["meaning " + dc.enc_tokens(dc.raw_tokens(s)) for s, _ in acc])
+        mstat = {"accepted": len(acc), "reference_defined_and_valid": 0, "agree": 0, "by_class": {}}
+        for (s, a), o in zip(acc, out):
+            m, d = o.split(" | ")
+            if m == "M none" or not d.startswith("D ") or d in ("D none", "D not-ok"):
+                continue
+            _, mn, valid, mt = m.split(" ")
+            if valid != "1":
+                continue
+            mstat["reference_defined_and_valid"] += 1
+            _, dn, dt = d.split(" ")
+            ctx.count(1)
+            # array bounds are compared as token text up to parentheses (PrintNode re-parenthesises signed operands)
+            mtx, dtx = common.dec(mt).replace("(", "").replace(")", ""), common.dec(dt).replace("(", "").replace(")", "")
+            if mn == dn and mtx == dtx:
+                mstat["agree"] += 1
+            else:
+                cls = rt_class(a, s)
+                if mtx.count("F<") + mtx.count("FC<") != dtx.count("F<") + dtx.count("FC<"):
+                    cls = "abstract-function-parens"
+                mstat["by_class"][cls] = mstat["by_class"].get(cls, 0) + 1
+                ctx.fail("meaning:" + cls, "C++ reads %r as %s %s; Shroud records %s %s" % (
+                    s, "<abstract>" if mn == "~" else common.dec(mn), common.dec(mt),
+                    "<abstract>" if dn == "~" else common.dec(dn), common.dec(dt)), {"kind": "meaning", "decl": s})
+        ctx.note("cxxMeaning_vs_denote", mstat)
+        check_base_agrees(ctx, 5 if thorough else 4)
 
     # ---- oracle (b): g++ / gcc
     cand = cxx_candidates(common.rng("c09-gxx"), 4000 if thorough else 500, depth)
